@@ -14,4 +14,8 @@ void vp_observe(std::uint64_t tag, std::uint64_t value) noexcept;
 std::uint64_t vp_alloc_count() noexcept;          // number of operator new calls so far
 std::uint64_t vp_live_count() noexcept;           // heap blocks currently alive
 std::uint64_t vp_thread_id() noexcept;
+void vp_hb_write(std::uint32_t id) noexcept;       // C04 ghost: a plain write of tracked variable id happens here
+void vp_hb_read(std::uint32_t id) noexcept;        // C04 ghost: a plain read of tracked variable id happens here (must be ordered after the write)
+void vp_sync_point() noexcept;                    // an explicit schedule point (sequentialised schedules may preempt here)
+int vp_yield_to_pending() noexcept;               // run the pending unit now if it has not run yet (returns 1), else 0
 }
